@@ -352,7 +352,12 @@ def install(interp, world):
             if world.ctx.fork(world.ctx.fresh_bool("timeout").e):
                 world.cancel_point("wait_for")
                 raise RaiseEx(SObj(asyncio.TimeoutError, {"args": ()}))
-            return interp_.do_await(aw)
+            try:
+                return interp_.do_await(aw)
+            except PathEnd:
+                # the awaited operation never completes: the timer fires
+                world.cancel_point("wait_for")
+                raise RaiseEx(SObj(asyncio.TimeoutError, {"args": ()}))
         return Awaitable(resolve, "wait_for")
 
     def m_create_task(interp_, coro, **k):
